@@ -197,3 +197,63 @@ def near(a, b, rel):
     if math.isinf(a) or math.isinf(b) or a != a or b != b:
         return False
     return abs(a - b) <= rel * max(abs(a), abs(b))
+
+
+# ------------------------------------------------------------------------------------------------ certified numerical inverses (2d)
+
+# numerically inverted models -> parameter vectors in the quick tier (each x 18 coverage strata).  (Virial: Nelder-Mead, known finding S24
+# -- answers that are no roots on the unchanged tree -- stays with the moderate oracle of section 2.)
+CERTIFIED = {"FHVST": 120, "WVST": 80, "TSLangmuir": 120, "TemkinApprox": 40, "JensenSeaton": 80}
+# upper edges of the coverage strata: dense on the steep approach to saturation
+COVERAGE_STRATA = (0.002, 0.02, 0.1, 0.3, 0.5, 0.65, 0.75, 0.8, 0.84, 0.87, 0.89, 0.91, 0.93, 0.95, 0.96, 0.97, 0.98, 0.99)
+CERT_KINDS = ("float", "f64", "0d", "1d1")
+# corners and interior of the shape parameters (FH-VST: a1v >= -1 is the range of `fhvst_strictMonoOn`, the pole of the exponent lies outside)
+_FHVST_A1V = (-0.9, -0.5, 0.0, 1.0, 3.0, 5.0)
+
+
+def cert_kind(np, kind, v):
+    return {"float": lambda: float(v), "f64": lambda: np.float64(v), "0d": lambda: np.array(float(v)), "1d1": lambda: np.array([float(v)])}[kind]()
+
+
+def certified_params(name, rng, iv):
+    """Parameter vector number `iv` of the certified-inverse grid: alternately the moderate box (capacities 1e-2..1e2, affinities 1e-3..1e3) and
+    the wide one (1e-3..1e3, 1e-6..1e6); the shape parameter on a corner of its range in every third vector, else uniform over the range."""
+    wide = iv % 2 == 1
+    cap = (lambda: logu(rng, 1e-3, 1e3)) if wide else (lambda: logu(rng, 1e-2, 1e2))
+    u = (lambda: logu(rng, 1e-6, 1e6)) if wide else (lambda: logu(rng, 1e-3, 1e3))
+    if name == "FHVST":
+        return {"n_m": cap(), "K": u(), "a1v": _FHVST_A1V[(iv // 3) % len(_FHVST_A1V)] if iv % 3 == 0 else rng.uniform(-0.9, 5)}
+    if name == "WVST":
+        lam = (lambda: rng.choice([0.15, 1.0])) if iv % 3 == 0 else (lambda: rng.uniform(0.15, 1))
+        return {"n_m": cap(), "K": u(), "L1v": lam(), "Lv1": lam()}
+    if name == "TSLangmuir":
+        return {"n_m1": cap(), "n_m2": cap(), "n_m3": cap(), "K1": u(), "K2": u(), "K3": u()}
+    if name == "TemkinApprox":
+        return {"n_m": cap(), "K": u(), "tht": rng.choice([0.0, 3.0]) if iv % 3 == 0 else rng.uniform(0, 3)}
+    if name == "JensenSeaton":
+        return {"K": u(), "a": cap(), "b": logu(rng, 1e-6, 1e3) if wide else logu(rng, 1e-3, 1e1), "c": rng.choice([0.25, 4.0]) if iv % 3 == 0 else logu(rng, 0.25, 4)}
+    raise KeyError(name)
+
+
+def certified_arguments(np, name, par, m, rng):
+    """[(coverage, argument of the closed-form direction)]: one jittered point in every coverage stratum.  Pressure-explicit models: the
+    loading itself; TSLangmuir / TemkinApprox: the pressure at which the closed-form loading reaches that coverage (log-bisection on the
+    closed form); Jensen-Seaton (no saturation capacity): reduced pressures K p / a stratified over 1e-6 ... 1e6."""
+    edges = (0.0,) + COVERAGE_STRATA
+    covs = [rng.uniform(a, b) for a, b in zip(edges, COVERAGE_STRATA)]
+    if name in PEXPLICIT:
+        return [(c, c * par["n_m"]) for c in covs]
+    if name == "JensenSeaton":
+        k = len(COVERAGE_STRATA)
+        return [(None, 10.0 ** (-6 + 12 * (i + rng.random()) / k) * par["a"] / par["K"]) for i in range(k)]
+    sat = SAT[name](par)
+    lo = np.full(len(covs), -300.0)
+    hi = np.full(len(covs), 300.0)
+    target = np.array(covs) * sat
+    with np.errstate(all="ignore"):
+        for _ in range(60):
+            mid = 0.5 * (lo + hi)
+            below = np.asarray(m.loading(10.0 ** mid), dtype=float) < target
+            lo = np.where(below, mid, lo)
+            hi = np.where(below, hi, mid)
+    return [(c, float(10.0 ** (0.5 * (a + b)))) for c, a, b in zip(covs, lo, hi)]
